@@ -18,7 +18,7 @@ from hypothesis import strategies as st
 import habutax.fields as hf
 import habutax.form as hform
 
-from hx import catalog, hyp, mock, scenario
+from hx import catalog, hyp, mock, scenario, solve
 
 PROPERTY = 'C09'
 LEVEL = 'exploration'
@@ -315,16 +315,24 @@ def shard_isolated(ctx, k, payload):
 
 # ---------------------------------------------------------------------------
 def shard_limits(ctx, k, payload):
-    n, seed = payload
+    n, seed = payload[0], payload[1]
     lim = GATES['limits']
 
-    def solved(sc, inputs):
-        r = scenario.resolve({'year': sc['year'], 'forms': sc['forms'], 'inputs': inputs}, want_solution=False)
+    def solved(sc, inputs, pol=None):
+        # inputs that only the changed return demands (e.g. "is Schedule 3 part I needed" once the foreign tax is gone)
+        # are answered by the persona's policy, as when the return was built
+        fn = (lambda inp, nb: pol.answer(inp)) if pol is not None else None
+        r = scenario.resolve({'year': sc['year'], 'forms': sc['forms'], 'inputs': inputs}, answer_fn=fn, want_solution=False)
         return (r.exc is None and bool(r.verdict)), r
 
+    forced = payload[2] if len(payload) > 2 else None      # (recipe, year, style): the payer-row recipe is enumerated, not drawn
+
     def body(data):
-        recipe = data.draw(st.sampled_from(['foreign_tax', 'foreign_tax', 'educator', 'hsa', 'oid', 'payers']))
+        recipe = forced[0] if forced else data.draw(st.sampled_from(['foreign_tax', 'foreign_tax', 'educator', 'hsa', 'oid', 'payers']))
         p = data.draw(scenario.personas(forms=['1040']))
+        if forced:
+            p['year'] = forced[1]
+            p = scenario.constrain(p)
         p['amount_bias'] = 'typical'
         if recipe == 'foreign_tax':
             p.update(foreign_tax=True, n_int=max(1, p['n_int']))
@@ -373,7 +381,7 @@ def shard_limits(ctx, k, payload):
                     d[f'1099-int:{c}.box_1'] = amounts[c]
                 return d
             # per-payer amounts: sometimes the first 14 rows alone stay under the Schedule B threshold
-            style = data.draw(st.sampled_from(['big', 'small_then_big', 'mixed']))
+            style = forced[2] if forced else data.draw(st.sampled_from(['big', 'small_then_big', 'mixed']))
             amounts = []
             for c in range(rows + 1):
                 if style == 'big':
@@ -386,8 +394,10 @@ def shard_limits(ctx, k, payload):
         if over is None:
             ctx.count('limits:recipe_not_applicable')
             return
-        ok_u, ru = solved(sc, under)
-        ok_o, ro = solved(sc, over)
+        pol = scenario.Policy(p, data.draw)
+        ok_u, ru = solved(sc, under, pol)
+        ok_o, ro = solved(sc, over, pol)
+        over = solve.config_to_dict(ro.store.config)       # the completed file replays without a prompt
         ctx.case(2)
         ctx.count('limits:' + recipe)
         probe = {'oid': '1040.number_1099-oid', 'foreign_tax': '1099-int:0.box_6', 'educator': '1040_s1.educator_expenses',
@@ -463,6 +473,8 @@ def run(ctx):
     hyp.pmap(ctx, shard_isolated, iso)
     hyp.pmap(ctx, shard_random, [((300 if quick else 6000) // 8, ctx.seed * 1000 + k) for k in range(8)])
     hyp.pmap(ctx, shard_limits, [((120 if quick else 3000) // 8, ctx.seed * 1000 + 300 + k) for k in range(8)])
+    hyp.pmap(ctx, shard_limits, [(3 if quick else 40, ctx.seed * 1000 + 400 + j, ('payers', year, style))
+                                 for j, (year, style) in enumerate((y_, s_) for y_ in catalog.YEARS for s_ in ('big', 'small_then_big', 'mixed'))])
     covered = ctx.lists.get('gates_covered', set())
     ctx.extra['gates_listed'] = total
     ctx.extra['gates_consulted_end_to_end'] = len(covered)
